@@ -37,6 +37,12 @@ def r08_1(ctx):
         fm = [(b, t) for b, t in f.calls() if t["callee"].rsplit("::", 1)[-1] == want and crate in t["callee"]]
         wa = [(b, t) for b, t in f.calls() if callee_is(t, "write_all")]
         ok = len(fm) == 1 and len(wa) == 1
+        # every path to a return goes through that one formatting call (no narrower fast path)
+        if ok:
+            ok = not (f.reachable_from(0, avoid={fm[0][0]}) & set(f.return_blocks))
+        other_writers = [t["callee"].rsplit("::", 1)[-1] for b, t in f.calls() if t["callee"].rsplit("::", 1)[-1] in INT_W + FLT_W]
+        if other_writers:
+            ok = False
         ty = f.name.split("_", 1)[1]
         if ok:
             # the formatted value is the method's own `value` parameter at its own width
